@@ -9,7 +9,7 @@ import Q1t.Proofs.CQasmWitness
 import Q1t.Proofs.CQasmTrig
 import Q1t.Proofs.CQasmWFWitness
 import Q1t.Proofs.CQasmComplex
-import Q1t.Proofs.CQasmEquivGates
+import Q1t.Proofs.CQasmEquivExample
 /-!
 # C12 — the c-QASM export preserves the circuit's semantics or fails
 
@@ -390,7 +390,8 @@ Carrier: the branches of `Spec/Born` (`(unnormalised state, register word)`).  `
 `cq_values_are_cq1_semantics` shows it is literally `CQ1.instrSem`.  On a branch satisfying the invariant `BrInv`
 (state of length `2^n`, kept by the non-zero test, word below `2^n`; `n ≤ 64`):
 
-* `cq_equiv_gate_partial` — for EVERY gate of `exactGates` (`H X Y Z S Sdg T Tdg I RX RY RZ CX CRY CRX CCRY CCRX`), all
+* `cq_equiv_gate_partial` — for EVERY gate of `exactGates` (`H X Y Z S Sdg T Tdg I RX RY RZ CX CRY CRX CCRY CCRX`; the
+  whole-circuit theorems use `exactAll`, which adds `CZ Swap CS CT CY CCX CCZ CU1`), all
   parameter values, all `n`, all valid placements: the value-level lines of the generated template (`exactDenot`, read
   off `Gen.cqGates` through `slinesOf`; kernel-checked `slines_table`), placed on the register, give exactly the branch
   of the circuit's gate operation.  Route: assembled identity on `k` qubits, then `embed_foldl_compose_one` (C04's
@@ -402,10 +403,9 @@ Carrier: the branches of `Spec/Born` (`(unnormalised state, register word)`).  `
 
 NOT proved: (1) that the parsed program of the exported TEXT is this value-level statement list (needs the exact parse
 results and a number round trip `S.angle (parse (N.disp x)) = x`; `cq_wellformed_partial` gives parsing and
-well-formedness only); (2) the fold over the operations of a circuit (`Born.branches` vs `dSeq` on branch lists, with
-preservation of `BrInv`); (3) gates outside `exactGates`: `V Vdg U1 CU3` (right up to a global phase, per-gate facts
-above), `CZ Swap CS CT CY CCX CCZ CU1` (per-gate facts above, not yet lifted), `measure_all`, `Kron`, `Composite`,
-unconditioned `Loop`.  All of these are checked by (B) on every run. -/
+well-formedness only); (2) [closed: `cq_equiv_partial` below folds the operations] (3) [closed for `CZ Swap CS CT CY CCX CCZ CU1` (exact, `exactAll`) and `V Vdg U1 CU3` (up to a phase,
+`cq_equiv_phase_partial`)]; still open: `CSdg CTdg` (decimal literals), conditional phase gates, `measure_all`, `Kron`,
+`Composite`, unconditioned `Loop`.  All of these are checked by (B) on every run. -/
 
 section equiv
 variable {α P : Type} [CommRing α] [Amp α P]
@@ -437,7 +437,8 @@ theorem cq_equiv_gate_partial (h : LawfulAmp α P) (hh : Proofs.Unitaries.Lawful
 
 /-- **cq_equiv_partial, conditional gates** (one-line translation `M` on `qs`) -/
 theorem cq_equiv_cond_partial (n : Nat) (nz : List α → Bool) (g : GateTerm P) (bits qs : List Nat) (M : LMat α)
-    (hU : Spec.embed n qs M = Spec.embed n bits (Spec.specMatrix g))
+    (hU : ∀ ψ : List α, ψ.length = 2 ^ n →
+      LMat.mulVec (Spec.embed n qs M) ψ = LMat.mulVec (Spec.embed n bits (Spec.specMatrix g)) ψ)
     (control : List Nat) (target : Nat) (hnd : control.Nodup) (ht : target < 2 ^ control.length)
     (hc64 : control.all Sim.shiftOk = true) (hlen : control.length ≤ 64)
     (br : CQ1.Branch α) (hbr : BrInv n nz br)
@@ -457,6 +458,41 @@ theorem cq_equiv_prep_partial (n : Nat) (nz : List α → Bool) (q : Nat) (br : 
 theorem cq_equiv_barrier_partial (n : Nat) (nz : List α → Bool) (bits : List Nat) (br : CQ1.Branch α)
     (hbr : BrInv n nz br) :
     some (dSeq n nz [] [br]) = Spec.branchesOp n nz (.barrier bits : Sim.COp P) br := barrier_op_equiv n nz bits br hbr
+
+
+/-- **cq_equiv_partial (whole circuits, value level)**: for EVERY list of operations of the per-operation class
+`FaithfulOp` (gates of `exactGates` with direct parameters on valid placements; one-line conditional gates of
+`exactGates` on a control list without repetition in range with a target below `2^len`; measurements in any basis of
+qubit `q` into bit `q`; resets; barriers), every `n ≤ 64` and every non-zero test that `|0…0⟩` passes and the gates keep:
+the Born branch list of the circuit from `|0…0⟩` IS the branch list of the concatenated value-level statements
+(`dSeq`, the semantics of `Spec/CQ1`) — same order, same register words, same states (exactly; no phase). -/
+theorem cq_equiv_partial (h : LawfulAmp α P) (hh : Proofs.Unitaries.LawfulHalf α P) (hn : LawfulNegHalf α P) (n : Nat)
+    (hn64 : n ≤ 64) (nz : List α → Bool)
+    (hnz0 : nz ((List.range (2 ^ n)).map fun i => if i = 0 then (1 : α) else 0) = true)
+    (steps : List (XOp P × List (DStmt α) × Sim.COp P)) (hs : ∀ s ∈ steps, FaithfulOp n nz s.1 s.2.1 s.2.2) :
+    Spec.branches n nz (steps.map (·.2.2)) (CQ1.initial n) =
+      some (dSeq n nz (steps.flatMap (·.2.1)) (CQ1.initial n)) :=
+  circuit_equiv h hh hn n hn64 nz hnz0 steps hs
+
+
+/-- **cq_equiv_partial, up to a global phase per branch**: the class additionally contains the gates whose translation
+is right up to a factor of modulus one (`V ↦ x90`, `V† ↦ mx90`, `U1 ↦ rz`, `CU3`; `phaseGates`).  For every operation list
+of `FaithfulOpPh`, `n ≤ 64`, and every non-zero test that does not see unit factors (`NzScale`), that `|0…0⟩` passes and
+the gates keep: the Born branch list exists and is related branch by branch (`PhRel`: same position, same register
+word, states equal up to a factor `c` with `c·c̄ = 1`) to the branch list of the value-level statements. -/
+theorem cq_equiv_phase_partial (h : LawfulAmp α P) (hh : Proofs.Unitaries.LawfulHalf α P) (hn : LawfulNegHalf α P)
+    (hq : LawfulQuarter α P) (n : Nat) (hn64 : n ≤ 64) (nz : List α → Bool) (hs : NzScale P nz)
+    (hnz0 : nz ((List.range (2 ^ n)).map fun i => if i = 0 then (1 : α) else 0) = true)
+    (steps : List (XOp P × List (DStmt α) × Sim.COp P)) (hst : ∀ s ∈ steps, FaithfulOpPh n nz s.1 s.2.1 s.2.2) :
+    ∃ r2, Spec.branches n nz (steps.map (·.2.2)) (CQ1.initial n) = some r2 ∧
+      List.Forall₂ (PhRel P n nz) (dSeq n nz (steps.flatMap (·.2.1)) (CQ1.initial n)) r2 :=
+  circuit_equiv_phase h hh hn hq n hn64 nz hs hnz0 steps hst
+
+/-- the exact class: 25 gates; the phase class: 4 more -/
+example : exactAll.length = 25 ∧ phaseGates = ["V", "Vdg", "U1", "CU3"] := by decide
+
+/-- non-vacuity over ℂ (keeping every branch): `H 0; CCRX(θ) [2,0,1]; measure_y 1; reset 0` on three qubits, every θ -/
+example (θ : ℝ) := AmpComplex.equiv_example θ
 
 /-- non-vacuity over ℂ: `CCRX` for every real angle on qubits `[4, 0, 2]` of a 5-qubit register -/
 example (θ : ℝ) := cq_equiv_gate_partial (α := ℂ) AmpComplex.lawful AmpComplex.lawfulHalf AmpComplex.lawfulNegHalf
